@@ -1,13 +1,194 @@
-(* Properties_C03.v — property C03 (stub while the pipeline is brought up). *)
+(* Properties_C03.v — property C03: the unscented transform preserves moments
+   and is exact for affine maps.  Statements only; each is closed by a lemma
+   of C03_Proofs.  F is an arbitrary realFieldType; tr carries the (uninterpreted)
+   scalar functions, sq the SVD square-root oracle, eg the eigenvector oracle.
+   The theorems below cover the linear layout with or without appended noise
+   rows (linear_layout L d: no circular component, l_lin L + l_noise L = d), any
+   dimension, any mixture, any PSD covariance (singular included), any
+   (alpha, beta, kappa) with c = n + lambda > 0.  The oracles enter only through
+   their contracts, stated as premises:
+     sqrt_contract : 0 <= x -> sqrt x * sqrt x = x
+     sq_contract   : psd P -> sq n P *m (sq n P)^T = P.
+   Circular (Euler) rows and quaternion blocks are modelled (C03_Model) and
+   covered by the correspondence check and the oracle; about them only
+   C03_first_sigma_point_partial is proved here (what is missing: wrap x = x
+   modulo 2 pi and the quaternion exp/log round trip, i.e. C19 / C18 facts, and
+   from them moment preservation on those rows for spreads within a half turn). *)
 Require Import ZArith QArith List.
 Require Import BFL.Ops BFL.ListOps BFL.C03_Model.
 From mathcomp Require Import all_ssreflect all_algebra.
 Require Import BFL.MxOps BFL.LinAlg BFL.C03_Proofs.
+Import GRing.Theory Num.Theory.
+Local Open Scope ring_scope.
 
+Section C03.
+Variable F : realFieldType.
+Variable tr : Transc F.
+Variable sq : forall n, 'M[F]_n -> 'M[F]_n.
+Variable eg : forall n, 'M[F]_n -> 'M[F]_(n,1).
+Let O := MxMat tr sq eg.
+
+(* weights sum to one whenever n + lambda <> 0 *)
+Theorem C03_weights_sum (n : nat) (alpha beta kappa : F) :
+  n%:R + (alpha * alpha * (n%:R + kappa) - n%:R) != 0 ->
+  ssum (FOps tr) (w_mean (ut_weights (O:=O) n alpha beta kappa)) = 1.
+Proof. exact: ut_weights_sum. Qed.
+
+(* 2n+1 weights of each kind; c = n + lambda = alpha^2 (n + kappa) *)
+Theorem C03_weights_shape (n : nat) (alpha beta kappa : F) :
+  [/\ length (w_mean (ut_weights (O:=O) n alpha beta kappa)) = Nat.add (Nat.mul 2 n) 1,
+      length (w_cov (ut_weights (O:=O) n alpha beta kappa)) = Nat.add (Nat.mul 2 n) 1 &
+      w_c (ut_weights (O:=O) n alpha beta kappa) = alpha * alpha * (n%:R + kappa)].
+Proof. exact: ut_weights_shape. Qed.
+
+Variable sqrt_contract : forall x : F, 0 <= x -> t_sqrt tr x * t_sqrt tr x = x.
+Variable sq_contract : forall n (P : 'M[F]_n), psd P -> sq n P *m (sq n P)^T = P.
+
+(* sigma points: 2d+1 of them, the first is the mean, and under the weights they
+   reproduce the mean and the covariance they were drawn from *)
+Theorem C03_sigma_moments_linear (L : layout) (d : nat) (alpha beta kappa : F)
+        (m : 'cV[F]_d) (P : 'M[F]_d) :
+  linear_layout L d -> psd P ->
+  let w := ut_weights (O:=O) d alpha beta kappa in
+  0 < w_c w ->
+  let Xs := sigma_comp (O:=O) L d d (w_c w) m P in
+  [/\ length Xs = Nat.add (Nat.mul 2 d) 1,
+      forall x, List.nth 0 Xs x = m,
+      wsum (O:=O) (w_mean w) Xs = m &
+      wouter (O:=O) (w_cov w) (List.map (fun x => x - m) Xs) (List.map (fun x => x - m) Xs) = P].
+Proof. by move=> HL pP w cp; exact: sigma_moments_linear. Qed.
+
+(* exactness on affine maps, whole mixture, generic overload: mean A m + b,
+   covariance A P A^T, cross-covariance = the non-noise rows of P A^T; the output
+   mixture has as many components, in the same order, and uniform weights *)
+Theorem C03_affine_exact (Lin Lout : layout) (d dx p : nat) (alpha beta kappa : F)
+        (A : 'M[F]_(p,d)) (b : 'cV[F]_p) (comps : list ('cV[F]_d * 'M[F]_d)) :
+  linear_layout Lin d -> l_lin Lin = dx -> l_lin Lout = p ->
+  (forall mc, In mc comps -> psd mc.2) ->
+  let w := ut_weights (O:=O) d alpha beta kappa in
+  0 < w_c w ->
+  ut_generic (O:=O) Lin Lout p dx w comps (fun X => Some (affine_cols (O:=O) A b X)) =
+  Some (mkUtResult (O:=O)
+          (List.map (fun mc => mkUtComp (O:=O) (A *m mc.1 + b : 'cV[F]_p) (A *m mc.2 *m A^T + 0)
+                                        (sel F d dx *m mc.2 *m A^T)) comps)
+          (repeat (1 / (length comps)%:R) (length comps))).
+Proof. by move=> HL Hdx HLo Hp w cp; exact: ut_generic_affine. Qed.
+
+(* the StateModel and MeasurementModel overloads are the generic one *)
+Theorem C03_affine_exact_models (Lin Lout : layout) (d dx p : nat) (alpha beta kappa : F)
+        (A : 'M[F]_(p,d)) (b : 'cV[F]_p) (comps : list ('cV[F]_d * 'M[F]_d)) :
+  linear_layout Lin d -> l_lin Lin = dx -> l_lin Lout = p ->
+  (forall mc, In mc comps -> psd mc.2) ->
+  let w := ut_weights (O:=O) d alpha beta kappa in
+  0 < w_c w ->
+  let r := mkUtResult (O:=O) (List.map (affine_image tr sq eg dx A b 0) comps)
+                      (repeat (1 / (length comps)%:R) (length comps)) in
+  ut_state (O:=O) Lin Lout p dx w comps (affine_cols (O:=O) A b) = r /\
+  ut_meas (O:=O) Lin Lout p dx w comps (fun X => Some (affine_cols (O:=O) A b X)) = Some r.
+Proof. by move=> HL Hdx HLo Hp w cp; exact: ut_models_affine. Qed.
+
+(* additive overloads: the noise covariance is added once to every component *)
+Theorem C03_affine_exact_additive (Lin Lout : layout) (d dx p : nat) (alpha beta kappa : F)
+        (A : 'M[F]_(p,d)) (b : 'cV[F]_p) (N : 'M[F]_p) (comps : list ('cV[F]_d * 'M[F]_d)) :
+  linear_layout Lin d -> l_lin Lin = dx -> l_lin Lout = p ->
+  (forall mc, In mc comps -> psd mc.2) ->
+  let w := ut_weights (O:=O) d alpha beta kappa in
+  0 < w_c w ->
+  let r := mkUtResult (O:=O)
+             (List.map (fun mc => mkUtComp (O:=O) (A *m mc.1 + b : 'cV[F]_p) (A *m mc.2 *m A^T + N)
+                                           (sel F d dx *m mc.2 *m A^T)) comps)
+             (repeat (1 / (length comps)%:R) (length comps)) in
+  ut_additive_state (O:=O) Lin Lout p dx w comps (affine_cols (O:=O) A b) N = r /\
+  ut_additive_meas (O:=O) Lin Lout p dx w comps (fun X => Some (affine_cols (O:=O) A b X)) N = Some r.
+Proof. by move=> HL Hdx HLo Hp w cp; exact: ut_additive_affine. Qed.
+
+(* augmented variant: belief augmented with the noise statistics, f [x; w] = A x + B w + b *)
+Theorem C03_affine_exact_augmented (Lin Lout : layout) (n q p : nat) (alpha beta kappa : F)
+        (A : 'M[F]_(p,n)) (B : 'M[F]_(p,q)) (b : 'cV[F]_p) (Q : 'M[F]_q)
+        (comps : list ('cV[F]_n * 'M[F]_n)) :
+  linear_layout Lin (n + q) -> l_lin Lin = n -> l_lin Lout = p ->
+  psd Q -> (forall mc, In mc comps -> psd mc.2) ->
+  let w := ut_weights (O:=O) (n + q) alpha beta kappa in
+  0 < w_c w ->
+  ut_generic (O:=O) Lin Lout p n w (List.map (augment_comp (O:=O) Q) comps)
+             (fun X => Some (affine_cols (O:=O) (row_mx A B) b X)) =
+  Some (mkUtResult (O:=O)
+          (List.map (fun mc => mkUtComp (O:=O) (A *m mc.1 + b : 'cV[F]_p)
+                                        (A *m mc.2 *m A^T + B *m Q *m B^T + 0) (mc.2 *m A^T)) comps)
+          (repeat (1 / (length comps)%:R) (length comps))).
+Proof. by move=> HL Hn HLo pQ Hp w cp; exact: ut_generic_affine_augmented. Qed.
+End C03.
+
+(* a failed function evaluation is reported as failure, never as a belief:
+   every arithmetic instance, every layout, every overload that can fail *)
 Theorem C03_failure_propagates (O : MatOps) Lin Lout d dc p pc dx (w : utw O)
-      (comps : list (M O d 1 * M O dc dc)) (f : list (M O d 1) -> option (list (M O p 1))) :
+        (comps : list (M O d 1 * M O dc dc)) (f : list (M O d 1) -> option (list (M O p 1))) R :
   f (sigma_points Lin d dc (w_c w) comps) = None ->
-  ut_generic Lin Lout pc dx w comps f = None.
-Proof. exact: ut_generic_failure. Qed.
+  [/\ ut_generic Lin Lout pc dx w comps f = None,
+      ut_meas Lin Lout pc dx w comps f = None &
+      ut_additive_meas Lin Lout pc dx w comps f R = None].
+Proof. exact: ut_failure_all. Qed.
 
+(* ... and a successful one is never reported as failure *)
+Theorem C03_success_propagates (O : MatOps) Lin Lout d dc p pc dx (w : utw O)
+        (comps : list (M O d 1 * M O dc dc)) (f : list (M O d 1) -> option (list (M O p 1))) Y :
+  f (sigma_points Lin d dc (w_c w) comps) = Some Y ->
+  ut_generic Lin Lout pc dx w comps f =
+  Some (ut_core Lin Lout pc dx w comps (sigma_points Lin d dc (w_c w) comps) Y).
+Proof. exact: ut_generic_success. Qed.
+
+(* non-vacuity: the layout premise is the layout the entry points compute
+   (l_dim = l_dcov = n + q, l_dx = n for a linear layout with q noise rows) *)
+Example C03_layout_premise (n q : nat) :
+  let L := mkLayout n 0 false q in
+  linear_layout L (n + q) /\ l_dim L = (n + q)%N /\ l_dcov L = (n + q)%N /\ l_dx L = n /\ l_lin L = n.
+Proof. by []. Qed.
+
+(* ... the weight premise holds for alpha = 1, kappa = 0: c = n *)
+Example C03_weight_premise (F : realFieldType) (tr : Transc F) sq eg (n : nat) (beta : F) :
+  0 < w_c (ut_weights (O:=MxMat tr sq eg) n.+1 1 beta 0).
+Proof. by rewrite ut_weights_c ut_weights_c_alt !mul1r addr0 ltr0n. Qed.
+
+(* ... and the executable instance of the same model, run over exact rationals
+   with a square-root oracle returning an exact factor (P = A A^T, A = [[2,0],[1,1]],
+   c = 4 so that sqrt c = 2 is exact: alpha = 1, kappa = 2, n = 2), reproduces the
+   moments and the affine closed form y = [1 2] x + 3: mean 2, covariance 20 = A P A^T,
+   cross-covariance P A^T = [8; 6]. *)
+Definition QsqOps : SOps :=
+  {| T := Q; s0 := s0 QOps; s1 := s1 QOps; sadd := sadd QOps; ssub := ssub QOps; smul := smul QOps; sdiv := sdiv QOps;
+     sopp := sopp QOps; sleb := sleb QOps; sltb := sltb QOps; sofZ := sofZ QOps;
+     ssqrt := fun x => if Qeq_bool x (4#1) then (2#1) else x;
+     sexp := sexp QOps; sln := sln QOps; scos := scos QOps; ssin := ssin QOps; sacos := sacos QOps;
+     satan2 := satan2 QOps; spi := spi QOps; stiny := stiny QOps |}.
+Definition QM3 := ListMat QsqOps (fun _ _ => [:: [:: 2#1; 0#1]; [:: 1#1; 1#1]]%Q) (fun _ A => A).
+Example C03_concrete_Q :
+  let L := mkLayout 2 0 false 0 in
+  let Lo := mkLayout 1 0 false 0 in
+  let P := [:: [:: 4#1; 2#1]; [:: 2#1; 2#1]]%Q in
+  let m := [:: [:: 1#1]; [:: -1#1]]%Q in
+  let w := @ut_weights QM3 2 (1#1)%Q (2#1)%Q (2#1)%Q in
+  let Xs := @sigma_comp QM3 L 2 2 (w_c w) m P in
+  let r := @ut_generic QM3 L Lo 2 2 1 1 2 w [:: (m, P)]
+             (fun X => Some (@affine_cols QM3 2 1 [:: [:: 1#1; 2#1]]%Q [:: [:: 3#1]]%Q X)) in
+  Qeq_bool (w_c w) (4#1) && qmx_eqb (@wsum QM3 2 (w_mean w) Xs) m
+  && qmx_eqb (@wouter QM3 2 2 (w_cov w) (List.map (fun x => @msub QM3 2 1 x m) Xs)
+                      (List.map (fun x => @msub QM3 2 1 x m) Xs)) P
+  && match r with
+     | Some r => match ur_comps r with
+                 | [:: u] => qmx_eqb (uc_mean u) [:: [:: 2#1]]%Q && qmx_eqb (uc_cov u) [:: [:: 20#1]]%Q
+                             && qmx_eqb (uc_cross u) [:: [:: 8#1]; [:: 6#1]]%Q
+                 | _ => false
+                 end
+     | None => false
+     end = true.
+Proof. vm_compute. reflexivity. Qed.
+
+Print Assumptions C03_weights_sum.
+Print Assumptions C03_weights_shape.
+Print Assumptions C03_sigma_moments_linear.
+Print Assumptions C03_affine_exact.
+Print Assumptions C03_affine_exact_models.
+Print Assumptions C03_affine_exact_additive.
+Print Assumptions C03_affine_exact_augmented.
 Print Assumptions C03_failure_propagates.
+Print Assumptions C03_success_propagates.
